@@ -1,4 +1,4 @@
-PROPS = ["CTV.Props.C03"]
+PROPS = ["CTV.Props.C03", "CTV.Props.C03Tie"]
 HARNESS = [dict(pkg="./x509/", test="TestVerifC03", timeout=900)]
 RULE = ("TBSCertificates from crypto/x509.CreateCertificate (seeded random templates: extension sets incl. random extra extensions with mixed "
         "criticality and empty/long values, serials with high bit / 20 octets, UTCTime/GeneralizedTime on both sides of 1950 and 2050, "
